@@ -46,6 +46,8 @@ type lcCase struct {
 	ReaderHangs int   `json:"reader_hangs"`
 	LeftBytes   int64 `json:"left_bytes"`
 	LeftGo      int   `json:"left_goroutines"`
+	LeftUnchoking int `json:"left_unchoking"` // upload slots still counted as taken after everybody is gone
+	Unchoked    int   `json:"unchoked"`       // peers that were unchoked when the torrent was deleted
 	KillResult  string `json:"kill_result"`
 }
 
@@ -125,6 +127,7 @@ func runLc(c *lcCase) {
 	s := newSwarm(sc)
 	baseGo := runtime.NumGoroutine()
 	baseBytes := alloc.Bytes()
+	baseUnchoking := peer.NumUnchoking()
 	ctx, cancel := context.WithCancel(context.Background())
 	defer cancel()
 	t, err := tor.AddTorrent(ctx, s.t)
@@ -149,12 +152,14 @@ func runLc(c *lcCase) {
 			close(rm.closed)
 		}()
 		remotes = append(remotes, b)
+		b.Write([]byte{0, 0, 0, 1, 2}) // interested: we may unchoke it
 		t.NewPeer("", a, netip.AddrPortFrom(netip.AddrFrom4([4]byte{10, 3, byte(p >> 8), byte(p)}), uint16(7000+p)), false,
 			protocol.HandshakeResult{Hash: t.Hash, Id: id, Fast: p%2 == 0}, nil)
 	}
 	t.Pieces.AddData(0, 0, s.content[:32768], 1)
 	t.Pieces.Finalise(0, t.PieceHashes[0])
 	time.Sleep(5 * time.Millisecond)
+	c.Unchoked = peer.NumUnchoking() - baseUnchoking
 	readerDone := make(chan string, 1)
 	go func() {
 		r := t.NewReader(context.Background(), 40000, 1000)
@@ -254,6 +259,7 @@ func runLc(c *lcCase) {
 		}
 		time.Sleep(5 * time.Millisecond)
 	}
+	c.LeftUnchoking = peer.NumUnchoking() - baseUnchoking
 	c.LeftBytes = alloc.Bytes() - baseBytes
 	c.LeftGo = runtime.NumGoroutine() - baseGo
 	if c.LeftGo < 0 {
@@ -277,5 +283,9 @@ func lcTerm(c *lcCase) string {
 		cs = append(cs, fmt.Sprintf("(\"%s\"%%string, %d)", x.Name, code))
 	}
 	kr := map[string]int{"ok": 0, "dead": 1, "err": 2, "hang": 9}[c.KillResult]
-	return fmt.Sprintf("mk_lccase %d [%s] %d %s %d %d %d %d", c.ID, strings.Join(cs, "; "), kr, cq.Bool(c.Listed), c.OpenConns, c.ReaderHangs, c.LeftBytes, c.LeftGo)
+	lu := c.LeftUnchoking
+	if lu < 0 {
+		lu = 999999
+	}
+	return fmt.Sprintf("mk_lccase %d [%s] %d %s %d %d %d %d %d", c.ID, strings.Join(cs, "; "), kr, cq.Bool(c.Listed), c.OpenConns, c.ReaderHangs, c.LeftBytes, c.LeftGo, lu)
 }
